@@ -88,6 +88,17 @@ type Case struct {
 	GlobalBoot    bool   `json:"global_bootstrap,omitempty"`
 	GlobalBootVer int    `json:"global_bootstrap_version,omitempty"`
 	Focus         string `json:"focus,omitempty"` // the option whose presence pattern the group varies, e.g. "dial_addr:+-+"
+
+	// ---- server-behaviour dimension (hostile.go); zero values = a well-behaved server ----
+	// Srv is the class of behaviour the harness server at the configured destination
+	// plays (redirect | alt-svc | misdirected | conn-close | alpn | quic-retry),
+	// SrvVariant the concrete one (redirect target, closing point, ALPN offer ...),
+	// SrvStatus the HTTP status of a redirect / refusal. Exchanges: how many
+	// exchanges are made in sequence on the one upstream (0 = one).
+	Srv        string `json:"server_behaviour,omitempty"`
+	SrvVariant string `json:"server_variant,omitempty"`
+	SrvStatus  int    `json:"server_status,omitempty"`
+	Exchanges  int    `json:"exchanges,omitempty"`
 }
 
 // siblingSuffix goes into the violation keys of group members (the first member
@@ -800,6 +811,9 @@ func (c *Case) formKey() string {
 }
 
 func (c *Case) classFP() string {
+	if c.Srv != "" {
+		return strings.Join([]string{schemeName(c.Scheme), c.HostClass, c.PortClass, c.DialKind, c.Via, "server=" + c.srvFP()}, "|")
+	}
 	return strings.Join([]string{schemeName(c.Scheme), c.HostClass, c.PortClass, c.DialKind, c.Via, c.GroupKind, fmt.Sprint(c.Order),
 		fmt.Sprint(c.BootVer), fmt.Sprint(c.Path != ""), fmt.Sprint(c.TC), c.optFP()}, "|")
 }
